@@ -132,6 +132,38 @@ def fam_rehome(rng, count):
     return out
 
 
+def fam_cycle_siblings(rng, count):
+    """C15: two to four sibling nested schedulers (optionally chained) of which a random,
+    non-empty, proper subset holds a cycle: the verdict of the level above must not depend on
+    which sibling is scanned last (after C15-m15)"""
+    out = []
+    for idx in range(count):
+        nsib = rng.randint(2, 4)
+        kinds = ["sched" if idx % 2 else "pure"]
+        mem = {1: []}
+        req = {}
+        sib = []
+        for _ in range(nsib):
+            kinds.append("sched")
+            s = len(kinds)
+            mem[1].append(s)
+            kinds += ["job", "job"]
+            mem[s] = [s + 1, s + 2]
+            sib.append(s)
+        cyclic = set(rng.sample(sib, rng.randint(1, nsib - 1)))
+        for s in sib:
+            req[s + 2] = [s + 1]
+            if s in cyclic:
+                req[s + 1] = [s + 2]
+        if rng.random() < 0.5:
+            for a, b in zip(sib, sib[1:]):
+                req[b] = [a]
+        steps = [{"op": "query", "qs": 1, "qA": [rng.choice(sib)]}] + \
+                [{"op": "query", "qs": s, "qA": [s + 1]} for s in sib]
+        out.append(hist(universe(kinds), mem, req, steps, perm(rng, len(kinds))))
+    return out
+
+
 def fam_backforth(rng, count):
     """C15: graphs mutated back and forth between cyclic and acyclic"""
     out = []
@@ -385,7 +417,7 @@ def histories(prop, tier, seed):
     nrand = 400 if quick else 6000
     if prop == "C15":
         out = fam_cycles(rng, tier) + fam_backforth(rng, 300 if quick else 3000) + \
-            fam_rehome(rng, 150 if quick else 1500) + \
+            fam_rehome(rng, 150 if quick else 1500) + fam_cycle_siblings(rng, 120 if quick else 1500) + \
             fam_random(rng, nrand, ["requires", "requires", "requires", "remove", "add", "query"])
         desc = "all digraphs <= %d nodes at 3 nesting levels under both scheduler classes; " \
                "back-and-forth edge mutations; random histories" % (3 if quick else 4)
